@@ -98,6 +98,7 @@ def check_c01_c05(prop, tier, seed):
     if not inplace:
         check_mask_ownership(b, rng, prop)
         check_detached_twin(b, rng, prop)
+        check_argument_ownership(b, rng, prop)
     return b
 
 
@@ -188,6 +189,53 @@ def check_detached_twin(b, rng, prop):
                 if (grads[0] is None) != (grads[1] is None) or (grads[0] is not None and not np.allclose(grads[0], grads[1], rtol=1e-12, atol=0)):
                     b.fail(f"{prop}.bounded.detached_twin", desc, f"x.grad = {None if grads[0] is None else grads[0].tolist()} with the twin, {None if grads[1] is None else grads[1].tolist()} with an independent constant of the same values")
                 b.case(desc)
+
+
+def check_argument_ownership(b, rng, prop):
+    """Mutable ARGUMENT objects (axes lists, stride / padding / dilation arrays, repeats, shifts, shapes) belong to the recorded computation:
+    if the caller overwrites them after the forward pass, backward() still differentiates what was computed."""
+    import mygrad.nnet as nn
+
+    x3 = rng.uniform(1, 2, size=(2, 3, 4))
+    x4 = rng.uniform(1, 2, size=(1, 1, 6, 6))
+    w4 = rng.uniform(1, 2, size=(1, 1, 2, 2))
+    cases = [
+        ("transpose[axes list]", lambda t, a: mg.transpose(t, a), x3, [1, 2, 0], [2, 0, 1]),
+        ("moveaxis[lists]", lambda t, a: mg.moveaxis(t, a, [2, 0]), x3, [0, 1], [1, 0]),
+        ("reshape[shape list]", lambda t, a: mg.reshape(t, a), x3, [6, 4], [4, 6]),
+        ("repeat[repeats array]", lambda t, a: mg.repeat(t, a, axis=0), x3, np.array([1, 2]), np.array([2, 1])),
+        ("roll[shift array]", lambda t, a: mg.roll(t, a, axis=(0, 1)), x3, np.array([1, 2]), np.array([0, 1])),
+        ("sum[axis list->tuple]", lambda t, a: mg.sum(t, axis=tuple(a)), x3, [0, 1], [1, 2]),
+        ("conv_nd[stride array]", lambda t, a: nn.conv_nd(t, w4, stride=a), x4, np.array([2, 2]), np.array([1, 1])),
+        ("conv_nd[dilation array]", lambda t, a: nn.conv_nd(t, w4, stride=1, dilation=a), x4, np.array([2, 2]), np.array([1, 1])),
+        ("conv_nd[padding array]", lambda t, a: nn.conv_nd(t, w4, stride=2, padding=a), x4, np.array([1, 1]), np.array([0, 0])),
+        ("max_pool[stride array]", lambda t, a: nn.max_pool(t, (2, 2), a), x4, np.array([2, 2]), np.array([1, 1])),
+        ("max_pool[pool array]", lambda t, a: nn.max_pool(t, a, (2, 2)), x4, np.array([2, 2]), np.array([1, 1])),
+        ("einsum[in a view: replayed args]", lambda t, a: mg.transpose(t, a)[0], x3, [2, 0, 1], [1, 0, 2]),
+    ]
+    for nm, call, xv, arg, alt in cases:
+        desc = dict(family="argument object owned by the recorded operation", call=nm, then="the caller overwrites the argument object before backward()")
+        b.count("argument object owned by the recorded operation")
+        grads = []
+        try:
+            for overwrite in (False, True):
+                t = mg.tensor(xv.copy())
+                a = arg.copy() if isinstance(arg, np.ndarray) else list(arg)
+                out = call(t, a)
+                W = np.arange(1.0, out.size + 1).reshape(out.shape)
+                L = (out * W).sum()
+                if overwrite:
+                    a[:] = alt
+                L.backward()
+                grads.append((t.grad.copy(), None if out.grad is None else out.grad.shape, out.shape))
+        except Exception as e:
+            b.fail(f"{prop}.bounded.argument_object_aliased", desc, f"{type(e).__name__}: {e}")
+            continue
+        if not np.array_equal(grads[0][0], grads[1][0]):
+            b.fail(f"{prop}.bounded.argument_object_aliased", desc, "the gradient differs when the caller overwrites the argument object after the forward pass")
+        elif grads[1][1] is not None and grads[1][1] != grads[1][2]:
+            b.fail(f"{prop}.bounded.argument_object_aliased", desc, f"the result's gradient has shape {grads[1][1]}, the result {grads[1][2]}")
+        b.case(desc)
 
 
 def check_mask_ownership(b, rng, prop):
